@@ -128,7 +128,7 @@ class Taint:
                 # async fn: the value is produced by the coroutine body
                 co = self.P.fns.get(s.callee + '::{closure#0}')
                 rl = self.t[callee.path].get(0)
-                if co is not None and callee.n <= 12:
+                if co is not None:
                     rl = rl or self.t[co.path].get(0)
                 if rl:
                     ch |= self._mark(fp, s.dest['l'], rl)
